@@ -157,7 +157,7 @@ theorem statusComplete_table :
     statusComplete .pending = false ∧ statusComplete .executable = false ∧ statusComplete .cancelling = false ∧
     statusComplete .updating = false ∧ statusComplete .replacing = false := by decide
 
-/-! ### known finding F2 / F10: a refused request on a live order locks the runner -/
+/-! ### F2 (fixed) / F10: a refused request on a live order -/
 
 def w0 : World :=
   { clock := 5,
@@ -167,12 +167,18 @@ def w0 : World :=
     trades := [{ id := 0, strategy := 0, market := 1, sel := 7, orders := [0], log := [.pending, .live] }],
     ctxs := [{ key := ⟨0, 1, 7, 0⟩, trades := [0], liveTrades := [0] }] }
 
-/-- the full statement "a runner whose orders have all completed has no live trade" fails on the code
-    as it stands: a control refusing a cancel marks the live order VIOLATION, the order is then
-    complete, but a VIOLATION never completes the trade — the slot stays taken -/
+/-- fix 0b9ab18: a control refusing a request on an order that is at the exchange leaves it alone (before
+    the fix the order was marked VIOLATION, counted as complete, and - a VIOLATION never completes a
+    trade - the runner slot stayed taken for ever) -/
+theorem violation_on_sent_order_noop (w : World) (oid : Nat) (msg : String) (s : Status)
+    (h : (w.order! oid).status = some s) (hs : s ≠ .violation) : w.orderViolation oid msg = w := by
+  unfold orderViolation
+  rw [if_pos]
+  rw [h]; exact ⟨rfl, by intro e; exact hs (Option.some.inj e)⟩
+
 theorem no_lockout_witness :
     let w := w0.orderViolation 0 "refused cancel"
-    (w.order! 0).complete = true ∧ (w.ctx ⟨0, 1, 7, 0⟩).liveTrades = [0] ∧ (w.trade! 0).status = .live := by
+    (w.order! 0).complete = false ∧ (w.order! 0).status = some .executable ∧ (w.ctx ⟨0, 1, 7, 0⟩).liveTrades = [0] := by
   decide +kernel
 
 /-- `no_lockout_partial`: when the completing status is not VIOLATION the slot is freed -/
